@@ -151,6 +151,17 @@ def fromString (s : List Char) : Except Err Config :=
   | .error e => .error e
   | .ok d => fromDict d
 
+/-- `Configuration.from_tuple_of_configurations`: the selections of several configurations are
+merged; for a controller met twice the first selection is kept (`none` = a configuration built
+without selections, skipped) -/
+def mergeSels : List (Option Config) → List Sel → List Sel
+  | [], acc => acc
+  | none :: t, acc => mergeSels t acc
+  | some c :: t, acc =>
+    mergeSels t (c.foldl (fun a p => if hasKey p.1 a then a else a ++ [p]) acc)
+
+def fromTuple (l : List (Option Config)) : Except Err Config := mkConfig (mergeSels l [])
+
 /-- `Configuration.get_selection` -/
 def getSelection : Config → Name → Option Name
   | [], _ => none
